@@ -26,6 +26,9 @@ INTERFACES = {
     # the offending pair in every position
     "unsorted_last": [0.5, 2.5, 1.5], "duplicate_last": [0.5, 1.5, 1.5],
     "two_unsorted": [1.5, 0.5], "two_duplicate": [0.5, 0.5],
+    # the origin of the order-parameter axis is arbitrary: interfaces below, at and around 0.0 (a value of
+    # exactly zero for lambda_-1, the cap or an interface must be treated like any other number)
+    "three_neg": [-1.5, -0.5, 0.5], "three_zero": [0.0, 1.0, 2.0], "three_endzero": [-2.0, -1.0, 0.0],
     "unsorted_mid4": [0.5, 2.5, 1.5, 3.5], "duplicate_last4": [0.5, 1.5, 2.5, 2.5], "unsorted_last4": [0.5, 1.5, 3.5, 2.5],
 }
 CAPS = ["absent", "below", "at_first", "inside", "at_wf", "at_last", "above", "zero"]
@@ -109,6 +112,8 @@ def lattice_room(meta):
     """Can valid initial lattice paths with non-zero weights exist (integer sites)?"""
     intf, moves, cap = meta["intf"], meta["moves"], meta["cap"]
     n = meta["n"]
+    if intf and intf[0] != 0.5:
+        return False  # shifted axis: the lattice template's initial paths do not fit
     for e in range(1, n):
         if moves[e] == "wf":
             right = cap if cap is not None else intf[-1]
